@@ -57,8 +57,10 @@ partial def loop (tbl : Std.HashMap String Handler) (quiet : Bool) (hin hout : I
       let s := match v.kf with | some n => { s with kf := bumpKf s.kf n } | none => s
       -- The predicate is only binding where the property quantifies (`wf`, the hypothesis of the
       -- theorem): outside it a false predicate claims nothing about the property, and only the
-      -- correspondence with the model applies.
-      let pred := v.pred || !v.wf
+      -- correspondence with the model applies.  A known-finding region is by definition part of
+      -- the property's quantifier (it is where the property is known to fail; the theorems' `wf`
+      -- excludes it only because they are the `_partial` forms), so there the predicate stays binding.
+      let pred := v.pred || (!v.wf && v.kf.isNone)
       match pred, v.corr, v.kf with
       | false, true, some n =>
         -- fails exactly as the known finding records: count, show only the first two per finding
